@@ -15,16 +15,21 @@ RULE = ("grammar-generated documents (token lists, so every admissible position 
 ASSUMPTIONS = ["allocation succeeds (C08)"]
 TRUSTED = ["Spec/Rfc8259.lean for the value of the unmodified document", "the generator's notion of 'admissible position' for each extension kind (tools/props/c16.py)"]
 MANIFEST = dict(
-    text="Proved on the tokener model (Props/C16.lean), for every tokener state of the named shape, every enclosing stack and every libc: in strict mode a "
-         "comment opener after whitespace is never entered as a comment (the byte goes to the saved state), a single quote is rejected both as a value and "
-         "as a member name, `]` / `}` right after a comma is rejected, a control byte inside a string or member name is rejected, a saved number text with "
-         "a superfluous leading zero (00, -01, 01.5) is rejected whatever libc says, and a byte after the complete top-level value is rejected unless "
-         "ALLOW_TRAILING_CHARS is set (then the call succeeds and reports the end of the value); in default mode each of these steps is accepted with the "
-         "transition stated. The lifting of these local facts to 'any valid document with one extension inserted at any position' (StrictRejectsStatement / "
-         "DefaultAcceptsStatement) needs the document induction shared with C01 and is decided by the differential run: every admissible position of every "
-         "generated document, three modes, against the specification's value of the base document.",
-    note="Trusted: Lean kernel + propext/Classical.choice/Quot.sound; Spec/Rfc8259.lean; the generator's list of admissible positions; harness/tok.c + Driver/Tok.lean.",
-    technique="Lean 4 proof (one rejection/acceptance lemma per extension form and parser state) + exhaustive-position correspondence run",
+    text="Specification: Spec/Rfc8259X.lean - an RFC 8259 document in which comments (in every gap), trailing commas, single-quoted strings and member "
+         "names, and literals with upper-case letters may occur any number of times at every position where they are syntactically possible (`XText`), "
+         "with `erase` = the original RFC 8259 text. Theorems (Props/C16.lean) on the byte-driven tokener model, by two inductions over that type, for "
+         "every document, every depth limit, no bound on size: `default_accepts_extensions` / `default_same_value_as_original` - default mode succeeds "
+         "with exactly the value of the original document, end position = length; `strict_rejects_extensions` - strict mode ends with an error status "
+         "(never success / continue), no value, no undefined step, as soon as at least one extension occurs anywhere; `plain_is_rfc8259`. The forms that "
+         "change a single token - raw control character in a string or name, superfluous leading zero, trailing bytes after the value (with and without "
+         "ALLOW_TRAILING_CHARS: accepted with the end of the value reported) - are per-state theorems for every tokener state of that shape and every "
+         "enclosing stack (`strict_control_in_string`, `strict_leading_zero_rejected`, `strict_trailing_rejected`, `trailing_accepted`, ...). The "
+         "differential run inserts all eight forms at every admissible position of every generated document in three modes and compares implementation, "
+         "model and the specification's value of the base document.",
+    note="Trusted: Lean kernel + propext/Classical.choice/Quot.sound; Spec/Rfc8259.lean + Spec/Rfc8259X.lean as the reading of 'valid document with an "
+         "extension inserted'; hypothesis LibcSpec (as C01; proved for the reference conversions); harness/tok.c + Driver/Tok.lean. Digit-less exponents "
+         "are decided by the run only (strtod's consumed length).",
+    technique="Lean 4 proof (two inductions over an extended-document datatype: default accepts with the original value, strict rejects) + exhaustive-position correspondence run",
     design="6/C16")
 
 STRICT, TRAIL = 1, 2
